@@ -15,8 +15,8 @@ import (
 
 // ---- C04: string(), number(), boolean() and implicit conversions ------------------
 
-var c04Sigma = []string{" ", "\t", "\n", "-", "+", ".", "0", "1", "e", "E", "x", "_", " ", "٣"}
-var c04Words = []string{"Infinity", "-Infinity", "NaN", "inf", "Inf", "nan", "0x10", "1e3", "1E-2", "1_0", "+1", "1.", ".5", "-.5", "- 1", "1 2", "١", "12345678901234567890123", "0.000000000000000000001",
+var c04Sigma = []string{" ", "\t", "\n", "-", "+", ".", "0", "1", "e", "E", "x", "_", "\u00a0", "\u0663"}
+var c04Words = []string{"\v1", "1\f", "1\u0085", "\u20031\u2003", "\u30001", "\ufeff1", "\u00a042", "1\u2028", "\x001", "1\x1f", "Infinity", "-Infinity", "NaN", "inf", "Inf", "nan", "0x10", "1e3", "1E-2", "1_0", "+1", "1.", ".5", "-.5", "- 1", "1 2", "١", "12345678901234567890123", "0.000000000000000000001",
 	"1" + string(make([]byte, 0)), "  12.50  ", "\r\n7\r\n", "--1", "1-", "1.2.3", ".", "-", "", "00012", "1e400", "9" + "99999999999999999999999999999999999999999999999999999999999999999999999999999999999999999999999999999999999999999999999999999999999999999999999999999999999999999999999999999999999999999999999999999999999999999999999999999999999999999999999999999999999999999999999999999999999999999999999999999999999999999999999999"}
 
 var c04Numbers = []float64{
